@@ -135,7 +135,8 @@ func New(config ...Config) fiber.Handler {
 		// Cache Entry found
 		if e != nil {
 			// Invalidate cache if requested
-			if cfg.CacheInvalidator != nil && cfg.CacheInvalidator(c) {
+			// (an external storage hands back an empty entry when nothing is cached)
+			if e.exp != 0 && cfg.CacheInvalidator != nil && cfg.CacheInvalidator(c) {
 				e.exp = ts - 1
 			}
 
